@@ -12,9 +12,33 @@ import tempfile
 
 HERE = os.path.dirname(os.path.dirname(os.path.abspath(__file__)))
 os.chdir(HERE)
-only = sys.argv[1:]
+# usage: seed_table.py [Cxx | Cxx-k ...]            run (a subset) and write seeded/RESULTS.md
+#        seed_table.py --shard k/n --out f.json      run every n-th seed starting at k, write the rows to f.json
+#        seed_table.py --merge f1.json f2.json ...   write seeded/RESULTS.md from shard files
+args = sys.argv[1:]
+shard = None
+out_json = None
+merge = None
+if args and args[0] == "--merge":
+    merge, args = args[1:], []
+if "--shard" in args:
+    i = args.index("--shard")
+    shard = tuple(int(x) for x in args[i + 1].split("/"))
+    del args[i:i + 2]
+if "--out" in args:
+    i = args.index("--out")
+    out_json = args[i + 1]
+    del args[i:i + 2]
+only = args
 rows = []
-for d in sorted(glob.glob("seeded/*/")):
+if merge is not None:
+    for f in merge:
+        rows += [tuple(r) for r in json.load(open(f))]
+    rows.sort()
+seeds = [] if merge is not None else sorted(glob.glob("seeded/*/"))
+if shard is not None:
+    seeds = [d for j, d in enumerate(seeds) if j % shard[1] == shard[0]]
+for d in seeds:
     name = os.path.basename(d.rstrip("/"))
     prop = name.split("-")[0]
     if only and prop not in only and name not in only:
@@ -42,6 +66,10 @@ for d in sorted(glob.glob("seeded/*/")):
         print(name, p.returncode, len(proved), len(bounded), und, flush=True)
     finally:
         shutil.rmtree(tmp, ignore_errors=True)
+if out_json is not None:
+    json.dump(rows, open(out_json, "w"))
+    print("written", out_json)
+    sys.exit(0)
 meta = {}
 for d in sorted(glob.glob("seeded/*/")):
     try:
